@@ -133,7 +133,7 @@ pub fn run(ctx: &Ctx) -> Outcome {
                 }
                 continue;
             }
-            let s = workload_text(&mut rng, lex, if i % 50 == 0 { 60 } else { 12 });
+            let s = workload_text(&mut rng, lex, if i % 500 == 1 { 400 } else if i % 50 == 0 { 60 } else { 12 });
             crate::core::set_current(code, "replace_numbers_in_text", &s);
             let mut max_occ = 0;
             for &t in TEXT_THRESHOLDS.iter() {
